@@ -15,7 +15,7 @@ ENCODED = ["mchap.application.call.program.call_sample_genotypes", "mchap.applic
 STUBS = ["pysam.VariantRecord -> duck-typed record (ref, alts, info, chrom/start/stop/id)"]
 ASSUMES = ["sequence handling is numpy unicode / str.format code (C boundary): the bases of REF and ALT, the number of ALT alleles and the assemble-side SNV set are integer variables that the solver enumerates exhaustively inside the bound (realised mode)",
            "ALT haplotypes are pairwise distinct and differ from REF (as in any VCF record)"]
-BOUNDS = {"quick": "pipeline: the assemble records of the C13 scenarios (6; thorough all) x 3 thresholds x dominant genotypes, re-read by call (trace chosen by the solver) and call-exact (real exact code), with and without AFP as prior; haplotypes of length 3 over {A,C,G}, REF + up to 2 ALT, every base combination; assemble side: every subset of positions as SNVPOS with up to 3 alleles per SNV and every called-haplotype set of size <= 3",
+BOUNDS = {"quick": "wide loci of 70 and 130 SNVs (thorough 40..260), 3 haplotypes with solver-chosen alleles at the first / middle / last SNVs; pipeline: the assemble records of the C13 scenarios (6; thorough all) x 3 thresholds x dominant genotypes, re-read by call (trace chosen by the solver) and call-exact (real exact code), with and without AFP as prior; haplotypes of length 3 over {A,C,G}, REF + up to 2 ALT, every base combination; assemble side: every subset of positions as SNVPOS with up to 3 alleles per SNV and every called-haplotype set of size <= 3",
           "thorough": "length 4, up to 3 ALT"}
 OUTSIDE = "piping real assemble stdout through call with real BAM files and pysam's VCF parser (the pipeline group hands call / call-exact a duck-typed record built from the text line assemble formatted)"
 TASKS_PER_CHILD = 4
@@ -31,6 +31,9 @@ def configs(tier):
             out.append(dict(group="record", L=L, ref="".join(ref), n_alt=n_alt))
     for ref in (["AAA", "ACA", "CAC"] if tier == "quick" else ["".join(r) for r in itertools.product("AC", repeat=3)]):
         out.append(dict(group="assemble", L=3, ref=ref))
+    # wide loci: more than 127 alleles in total over the SNVs of one locus (fixed-width integer arithmetic on int8 haplotype arrays)
+    for n_snv in ((70, 130) if tier == "quick" else (40, 64, 70, 130, 260)):
+        out.append(dict(group="wide", n_snv=n_snv))
     # whole pipeline at record level: the text line written by assemble is re-read and called by call / call-exact
     from checks import c13
 
@@ -41,6 +44,8 @@ def configs(tier):
 
 
 def weight(c):
+    if c["group"] == "wide":
+        return 3000
     return 27 ** c.get("n_alt", 2) if c["group"] != "pipeline" else 2000
 
 
@@ -65,7 +70,7 @@ def run_config(c, col):
     warnings.simplefilter("ignore")
     prof = E.Profile()
     with prof:
-        {"record": _run_record, "assemble": _run_assemble, "pipeline": _run_pipeline}[c["group"]](c, col)
+        {"record": _run_record, "assemble": _run_assemble, "pipeline": _run_pipeline, "wide": _run_wide}[c["group"]](c, col)
     col.functions |= set(prof.names())
     E.cfg.concrete_floats = False
 
@@ -133,6 +138,69 @@ def _run_record(c, col):
             col.fail(site, problems[0][0], witness=dict(ref=ref, alts=alts, problems=[p[1] for p in problems]), desc=problems[0][1])
         else:
             col.ok("record -> LocusPrior -> integer alleles -> strings is the identity; positions/numbering as specified (bases solver-enumerated)")
+
+
+def _run_wide(c, col):
+    """a locus with many SNVs (2-3 alleles each, every 7th tri-allelic): haplotypes rendered by assemble's side and re-read by
+    call's side; which haplotypes carry ALT bases at the first, a middle and the last SNVs is chosen by the solver"""
+    lo = E.load("mchap.io.loci")
+    site = "mchap.io.loci.Locus.format_haplotypes"
+    n = c["n_snv"]
+    L = 2 * n + 1
+    ref = "".join("AC"[j % 2] for j in range(L))
+    offs = [2 * k + 1 for k in range(n)]
+    alle = []
+    for k, j in enumerate(offs):
+        others = [b for b in "ACGT" if b != ref[j]]
+        alle.append(tuple([ref[j]] + others[: (2 if k % 7 == 3 else 1)]))
+    variants = tuple(lo.SNP("chr1", 50 + j, 51 + j, ".", alleles=alle[k]) for k, j in enumerate(offs))
+    probes = [0, n // 2, n - 2, n - 1]
+
+    def body(ctx):
+        haps = rnp.zeros((3, n), dtype=rnp.int8)
+        for h in (1, 2):
+            for k in probes:
+                haps[h, k] = int(E.SymInt(E.fresh_int(ctx, "h%d_%d" % (h, k), 0, len(alle[k]) - 1)))
+            for k in range(n):  # fixed background so that the two haplotypes differ in many places
+                if k not in probes and (k + h) % 3 == 0:
+                    haps[h, k] = len(alle[k]) - 1
+        if len({tuple(r) for r in haps.tolist()}) != 3:
+            raise E.PathAbort()
+        locus = lo.Locus("chr1", 50, 50 + L, "loc", ref, variants)
+        strings = locus.format_haplotypes(haps)
+        rec = _Record(strings[0], strings[1:], info={"SNVPOS": tuple(j + 1 for j in offs)})
+        lp = lo.LocusPrior.from_variant_record(rec)
+        back = lp.format_haplotypes(lp.encode_haplotypes())
+        return haps, strings, lp, back
+
+    first = True
+    for pr in E.explore(body, stats=col.stats):
+        if pr.exc is not None:
+            col.fail(site, "exception", shape=dict(group="wide"), witness=dict(exc=repr(pr.exc), n_snv=n), desc="raised %r" % (pr.exc,))
+            continue
+        col.path()
+        if first:
+            col.reachable(pr.ctx)
+            first = False
+        haps, strings, lp, back = pr.value
+        problems = []
+        for h, s_ in zip(haps.tolist(), strings):
+            want = list(ref)
+            for k, j in enumerate(offs):
+                want[j] = alle[k][h[k]]
+            if s_ != "".join(want):
+                bad = [i for i in range(min(len(s_), L)) if s_[i] != want[i]]
+                problems.append(("rendering", "haplotype rendered with %d wrong bases (first at offset %s of %d SNVs x up to 3 alleles)" % (len(bad) or abs(len(s_) - L), bad[:1], n)))
+                break
+        if list(back) != list(strings):
+            problems.append(("round-trip", "format_haplotypes(encode_haplotypes()) of the re-read record differs from the record's sequences (%d SNVs)" % n))
+        pos = [p_ - lp.start for p_ in lp.positions]
+        if not set(pos) <= set(offs):
+            problems.append(("positions-subset", "call-side SNV offsets are not a subset of SNVPOS"))
+        if problems:
+            col.fail(site, problems[0][0], shape=dict(group="wide"), witness=dict(n_snv=n, haps=[[int(haps[h, k]) for k in probes] for h in range(3)], problems=[p_[1] for p_ in problems]), desc=problems[0][1])
+        else:
+            col.ok("wide locus (%d SNVs, > 127 alleles in total for n >= 64): rendering and re-reading are exact" % n)
 
 
 def _record_of_line(line):
@@ -327,6 +395,10 @@ def replay(v):
         from checks import wiring
 
         return wiring.replay_real(v, _run_pipeline)
+    if c["group"] == "wide":
+        from checks import wiring
+
+        return wiring.replay_real(v, _run_wide)
     try:
         if c["group"] == "record":
             m = w.get("model") or {}
